@@ -3,6 +3,7 @@ package dfind
 
 import (
 	"fmt"
+	"github.com/freeconf/yang/val"
 	"strings"
 
 	"verif/internal/abs"
@@ -87,6 +88,29 @@ func describe(sel *node.Selection) (sp []string, key []string) {
 	return
 }
 
+// noKey wraps a node: a list request that names the key is answered with the item and no key
+// (what a hand-written node may do: the caller knows the key it asked for)
+type noKey struct{ node.Node }
+
+func (n noKey) Child(r node.ChildRequest) (node.Node, error) {
+	c, err := n.Node.Child(r)
+	if c != nil {
+		c = noKey{c}
+	}
+	return c, err
+}
+
+func (n noKey) Next(r node.ListRequest) (node.Node, []val.Value, error) {
+	c, key, err := n.Node.Next(r)
+	if c != nil {
+		c = noKey{c}
+	}
+	if r.Key != nil {
+		key = nil
+	}
+	return c, key, err
+}
+
 // case {kind:"find", fixture, store, tree, from, target, variant, unknown (name to append)}
 func execFind(c core.Case) []core.Rec {
 	f, err := fx.Load(c["fixture"].(string))
@@ -102,7 +126,11 @@ func execFind(c core.Case) []core.Rec {
 	unknown, _ := c["unknown"].(string)
 	root := kind.Build(f, t)
 	t = kind.Project(f, root)
-	b := node.NewBrowser(f.Module, kind.Wrap(root))
+	data := kind.Wrap(root)
+	if nk, _ := c["nokey"].(bool); nk {
+		data = noKey{data}
+	}
+	b := node.NewBrowser(f.Module, data)
 	start := b.Root()
 	if len(from) > 0 {
 		ferr, _, _ := dedit.Guard(func() error {
@@ -136,7 +164,7 @@ func execFind(c core.Case) []core.Rec {
 		"back": core.Rec{"tried": false, "found": false, "sp": []string{}, "key": []string{}, "text": ""}}
 	rec := core.Rec{"chk": "find", "schema": f.Name, "impl": storeName, "tree": t, "from": from, "target": target, "text": text,
 		"unknown": unknown != "", "res": res,
-		"sig": core.Rec{"impl": storeName, "variant": variant, "target": tkind, "up": strings.HasPrefix(text, "../"), "special": hasSpecial(target)}}
+		"sig": core.Rec{"impl": storeName, "variant": variant, "target": tkind, "up": strings.HasPrefix(text, "../"), "special": hasSpecial(target), "nokey": c["nokey"] == true}}
 	var sel *node.Selection
 	ferr, panicked, frame := dedit.Guard(func() error {
 		var e error
